@@ -329,3 +329,204 @@ func vfC20Ring(nops int) {
 	vfAssert(q.Pop() == nil, "drain: queue not empty at the end")
 	vfReach("end")
 }
+
+// ---------------------------------------------------------------------------
+// C20_waitqueue: the per-key wait queue (inline slice -> overflow ring -> priority ring)
+// against a FIFO / stable priority queue.  The queue is pre-filled with N waiters
+// (N up to 300: beyond the inline slice's growth limit, so that the overflow ring is in
+// use), some are popped, then every program of 4 operations: push (priority 0 or 1),
+// pop, observe (head, length, iteration), switch to priority mode.
+// C20_holdqueue: the per-key holder queue (inline slice -> scale queue) in the same way,
+// with releases (locked = 0) of arbitrary entries, which compaction may drop.
+
+func init() {
+	vfHarnesses["C20_waitqueue"] = vfH_C20_waitqueue
+	vfHarnesses["C20_holdqueue"] = vfH_C20_holdqueue
+}
+
+type vfWEnt struct {
+	l    *Lock
+	prio uint8
+}
+
+func vfNewWaiter(i int, prio uint8) *Lock {
+	c := &protocol.LockCommand{}
+	c.LockId[0], c.LockId[1] = byte(i), byte(i>>8)
+	if prio > 0 {
+		c.TimeoutFlag, c.Rcount = protocol.TIMEOUT_FLAG_RCOUNT_IS_PRIORITY, prio
+	}
+	return &Lock{command: c, ackCount: 0xff, refCount: 100, locked: 0}
+}
+
+func vfStableInsert(model []vfWEnt, e vfWEnt) []vfWEnt {
+	at := len(model)
+	for i := range model {
+		if model[i].prio < e.prio {
+			at = i
+			break
+		}
+	}
+	model = append(model, vfWEnt{})
+	copy(model[at+1:], model[at:])
+	model[at] = e
+	return model
+}
+
+func vfH_C20_waitqueue() {
+	q := NewLockManagerWaitQueue(false)
+	var model []vfWEnt
+	prioMode := false
+	next := 0
+	push := func(p uint8) {
+		l := vfNewWaiter(next, p)
+		next++
+		q.Push(l)
+		if prioMode {
+			model = vfStableInsert(model, vfWEnt{l, p})
+		} else {
+			model = append(model, vfWEnt{l, p})
+		}
+	}
+	pop := func() {
+		r := q.Pop()
+		if len(model) == 0 {
+			vfAssert(r == nil, "wait queue: Pop on empty returned an element")
+		} else {
+			vfAssert(r == model[0].l, "wait queue: Pop returned the wrong element")
+			model = model[1:]
+		}
+	}
+	N := [6]int{0, 7, 8, 9, 150, 300}[vfChoice("fill", 6)]
+	for i := 0; i < N; i++ {
+		push(0)
+	}
+	P := [3]int{0, 1, 5}[vfChoice("prepop", 3)]
+	for i := 0; i < P; i++ {
+		pop()
+	}
+	for step := 0; step < 4; step++ {
+		switch vfChoice(vfName("op", step), 5) {
+		case 0:
+			push(0)
+		case 1:
+			push(1)
+		case 2:
+			pop()
+		case 3:
+			h := q.Head()
+			if len(model) == 0 {
+				vfAssert(h == nil, "wait queue: Head on empty returned an element")
+			} else {
+				vfAssert(h == model[0].l, "wait queue: Head returned the wrong element")
+			}
+			var got []*Lock
+			for _, n := range q.IterNodes() {
+				for _, l := range n {
+					if l != nil {
+						got = append(got, l)
+					}
+				}
+			}
+			vfAssert(len(got) == len(model), "wait queue: iteration yields a different number of elements")
+			for i := range got {
+				if i < len(model) {
+					vfAssert(got[i] == model[i].l, "wait queue: iteration yields the wrong element or order")
+				}
+			}
+		case 4:
+			// AddWaitLock does this when a waiter with a different priority arrives
+			if !prioMode {
+				q.RePushPriorityRingQueue()
+				prioMode = true
+				var sorted []vfWEnt
+				for _, e := range model {
+					sorted = vfStableInsert(sorted, e)
+				}
+				model = sorted
+			}
+		}
+		vfAssert(q.Len() == len(model), "wait queue: Len disagrees with the model")
+	}
+	for len(model) > 0 {
+		pop()
+	}
+	vfAssert(q.Pop() == nil, "wait queue: not empty at the end")
+	vfReach("end")
+}
+
+func vfH_C20_holdqueue() {
+	q := NewLockManagerLockQueue()
+	var model []*Lock // live (locked > 0) entries in order
+	next := 0
+	push := func() {
+		l := vfNewWaiter(next, 0)
+		l.locked = 1
+		next++
+		q.Push(l)
+		model = append(model, l)
+	}
+	// popLive pops until a live entry appears (released entries may or may not have been dropped)
+	popLive := func() *Lock {
+		for guard := 0; guard < 400; guard++ {
+			r := q.Pop()
+			if r == nil || r.locked > 0 {
+				return r
+			}
+		}
+		return nil
+	}
+	N := [6]int{0, 5, 6, 7, 140, 300}[vfChoice("fill", 6)]
+	for i := 0; i < N; i++ {
+		push()
+	}
+	for step := 0; step < 4; step++ {
+		switch vfChoice(vfName("op", step), 5) {
+		case 0:
+			push()
+		case 1:
+			r := popLive()
+			if len(model) == 0 {
+				vfAssert(r == nil, "holder queue: Pop on a queue without live entries returned one")
+			} else {
+				vfAssert(r == model[0], "holder queue: the first live entry popped is the wrong one")
+				model = model[1:]
+			}
+		case 2:
+			// release an entry in place (first, middle or last): it stays as a dead entry until dropped
+			if len(model) > 0 {
+				i := [3]int{0, len(model) / 2, len(model) - 1}[vfChoice(vfName("rel", step), 3)]
+				model[i].locked = 0
+				q.RemoveLock(model[i].command)
+				model = append(append([]*Lock(nil), model[:i]...), model[i+1:]...)
+			}
+		case 3:
+			var got []*Lock
+			for i := range q.IterNodes() {
+				for _, l := range q.IterNodeQueues(int32(i)) {
+					if l != nil && l.locked > 0 {
+						got = append(got, l)
+					}
+				}
+			}
+			vfAssert(len(got) == len(model), "holder queue: iteration yields a different number of live entries")
+			for i := range got {
+				if i < len(model) {
+					vfAssert(got[i] == model[i], "holder queue: iteration yields the wrong live entry or order")
+				}
+			}
+		case 4:
+			// lookup by lock id: every live entry is found, a released one is not
+			if len(model) > 0 {
+				i := [3]int{0, len(model) / 2, len(model) - 1}[vfChoice(vfName("get", step), 3)]
+				vfAssert(q.GetLock(model[i].command) == model[i], "holder queue: GetLock does not find a live entry by its lock id")
+			}
+		}
+	}
+	for len(model) > 0 {
+		r := popLive()
+		vfAssert(r == model[0], "holder queue: drain: wrong live entry")
+		model = model[1:]
+	}
+	vfAssert(popLive() == nil, "holder queue: live entries left at the end")
+	vfReach("end")
+}
